@@ -123,3 +123,44 @@ theorem gen_get_segwit_address (hrp : List Char) (sha256 : Bytes → Bytes) (hle
   rfl
 
 end C11GenInit
+
+namespace C11GenInit
+open Py Model Model.Bech32 C11GenTop
+
+/-- `utils.is_address_bech32`, translated: the model predicate on every string -/
+theorem gen_is_address_bech32 (s : String) : Gen.is_address_bech32 s.toList = .ok (isAddressBech32 specConsts s) := by
+  unfold Gen.is_address_bech32 isAddressBech32
+  by_cases he : s.toList = []
+  · have : s.isEmpty = true := by
+      rw [String.isEmpty_iff]
+      exact String.toList_eq_nil_iff.mp he
+    rw [he, this]; rfl
+  · have h1 : s.isEmpty = false := by
+      rw [Bool.eq_false_iff]
+      intro h
+      rw [String.isEmpty_iff] at h
+      exact he (by rw [h]; rfl)
+    have h2 : (!(!(s.toList).isEmpty)) = false := by
+      cases hl : s.toList with
+      | nil => exact absurd hl he
+      | cons a t => rfl
+    simp only [h1, h2, Bool.false_eq_true, if_false, gen_bech32_decode, ok_bind_p]
+    cases bech32Decode specConsts s.toList with
+    | none => rfl
+    | some r => obtain ⟨a, b, c⟩ := r; rfl
+
+/-- the predicate answers yes for every address the translated `to_string` renders for a valid program, and no for strings of mixed
+case or without a valid bech32 / bech32m structure (in particular every Base58 address: it contains upper- and lower-case letters or
+no separator) -/
+theorem gen_predicate (hrp : String) (hh : hrp ∈ Gen.NETWORK_SEGWIT_PREFIXES.map (·.2)) (ver : Nat) (prog : Bytes)
+    (hv : C11.validProgram ver prog) :
+    (∀ s, segwitToString specConsts hrp ver prog = some s → Gen.is_address_bech32 s.toList = .ok true) ∧
+    (∀ s : String, ((s.toList.map lowerC ≠ s.toList ∧ s.toList.map upperC ≠ s.toList) ∨ bech32Decode specConsts s.toList = none) →
+      Gen.is_address_bech32 s.toList = .ok false) := by
+  constructor
+  · intro s hs
+    rw [gen_is_address_bech32, C11.predicate_valid hrp hh ver prog hv s hs]
+  · intro s h
+    rw [gen_is_address_bech32, C11.predicate_rejects s h]
+
+end C11GenInit
